@@ -460,6 +460,82 @@ Section Facts.
       destruct (receive_authentic codec true uri e a k Hr) as (r & s & n & p & H1 & H2 & H3 & H4 & _).
       exists r, s, n, p. repeat split; assumption.
   Qed.
+  (* ---------------- ERROR direction, whole _exception_from_message: for EVERY caller-side registry ---------------- *)
+  Variable MV : Type.
+  Variable enc_note : string -> V.
+  Variable construct : cls -> shape -> list V -> kw -> ctor_result V MV.
+  Notation efm_codec := (exception_from_message_codec V P C open loads MV enc_note construct).
+  Notation enc_exn := (enc_exn V MV enc_note).
+
+  (* a ciphertext the caller cannot open: the explicit decrypt error, whatever class is registered for the URI;
+     the constructor oracle is never consulted *)
+  Lemma error_unopenable_registered : forall reg r error e rtype req meta,
+    (forall s, get_box r true error = Some s -> open s (e_payload e) = None) ->
+    efm_codec reg (Some r) rtype req error (Encoded e) meta = (Ok (enc_exn ENC_DECRYPT_ERROR), false).
+  Proof.
+    intros reg r error e rtype req meta H. unfold exception_from_message_codec.
+    destruct (receive_unopenable r true error e H) as [x Hx].
+    assert (Hnp : forall a0 k0, RDecryptError (V:=V) x <> RPayload a0 k0) by (intros; discriminate).
+    rewrite (error_failure (Some r) error (Encoded e) _ Hx Hnp). reflexivity.
+  Qed.
+
+  Lemma error_wrong_key_registered : forall reg r error s n p rtype req meta,
+    (forall s', get_box r true error = Some s' -> s <> s') ->
+    efm_codec reg (Some r) rtype req error (Encoded (mkEnc (seal s n p) "cryptobox" (Some "json") None)) meta
+      = (Ok (enc_exn ENC_DECRYPT_ERROR), false).
+  Proof.
+    intros reg r error s n p rtype req meta H. apply error_unopenable_registered.
+    intros s' Hb. simpl. destruct AEAD as (_ & A2 & _). apply A2. apply (H s' Hb).
+  Qed.
+
+  (* a ciphertext sealed for another URI (same secret): the explicit mismatch error; the foreign args never reach a
+     registered class *)
+  Lemma error_uri_binding_registered : forall reg r uri inner s n p a k rtype req meta,
+    inner <> uri -> dumps (Some inner, a, k) = Some p -> get_box r true uri = Some s ->
+    efm_codec reg (Some r) rtype req uri (Encoded (mkEnc (seal s n p) "cryptobox" (Some "json") None)) meta
+      = (Ok (enc_exn ENC_TRUSTED_URI_MISMATCH), false).
+  Proof.
+    intros reg r uri inner s n p a k rtype req meta Hne Hd Hb. unfold exception_from_message_codec.
+    destruct (uri_binding r uri inner s n n p a k Hne Hd) as [_ H]. destruct (H Hb) as (_ & _ & He).
+    rewrite He. reflexivity.
+  Qed.
+
+  Lemma error_no_codec_registered : forall reg error e rtype req meta,
+    efm_codec reg None rtype req error (Encoded e) meta = (Ok (enc_exn ENC_NO_PAYLOAD_CODEC), false).
+  Proof. reflexivity. Qed.
+
+  (* everything else is authentic: the registry / constructors only ever see args and kwargs that were sealed under
+     the caller's own secret for exactly this error URI *)
+  Lemma error_authentic_registered : forall reg codec error e rtype req meta,
+    (exists u, (u = ENC_NO_PAYLOAD_CODEC \/ u = ENC_DECRYPT_ERROR \/ u = ENC_TRUSTED_URI_MISMATCH) /\
+               efm_codec reg codec rtype req error (Encoded e) meta = (Ok (enc_exn u), false))
+    \/
+    (exists r s n p a k, codec = Some r /\ get_box r true error = Some s /\ e_payload e = seal s n p /\
+                         loads p = Some (Some error, a, k) /\
+                         efm_codec reg codec rtype req error (Encoded e) meta =
+                           exception_from_message construct reg (mkErr rtype req error a k meta)).
+  Proof.
+    intros reg codec error e rtype req meta. unfold exception_from_message_codec.
+    destruct (on_error_codec codec error (Encoded e)) as [a k|u] eqn:Eo.
+    - right. unfold Cryptobox.on_error_codec in Eo.
+      destruct (receive codec true error (Encoded e)) as [a' k'| |x|u'] eqn:Hr; try discriminate.
+      inversion Eo; subst a' k'.
+      destruct (receive_authentic codec true error e a k Hr) as (r & s & n & p & H1 & H2 & H3 & H4 & _).
+      exists r, s, n, p, a, k. repeat split; assumption.
+    - left. exists u. split; [|reflexivity].
+      unfold Cryptobox.on_error_codec in Eo.
+      destruct (receive codec true error (Encoded e)) as [a' k'| |x|u']; inversion Eo; simpl; tauto.
+  Qed.
+
+  (* round trip with a registry: what the caller's registry / constructors work on is exactly what the callee encoded *)
+  Lemma roundtrip_error_registered : forall reg ra rb error a k n s b rtype req meta,
+    get_box ra true error = Some s -> get_box rb false error = Some s ->
+    error_body (Some rb) error a k n = Sent b ->
+    efm_codec reg (Some ra) rtype req error b meta = exception_from_message construct reg (mkErr rtype req error a k meta).
+  Proof.
+    intros reg ra rb error a k n s b rtype req meta Ha Hb Ho. unfold exception_from_message_codec.
+    rewrite (roundtrip_error ra rb error a k n s b Ha Hb Ho). reflexivity.
+  Qed.
 End Facts.
 
 (* matching key material: the originator's box and the responder's box compute the same secret *)
